@@ -59,6 +59,8 @@ def verify_case(c, ci, fn_node=None):
     """Generate the obligations of contract c, case ci, from the current source."""
     res = FunctionResult(c, c.case_names[ci])
     t0 = time.time()
+    from .exec import clear_memo
+    clear_memo()
     try:
         node = fn_node if fn_node is not None else source.locate(c.file, c.qual)
         node = mutate_hook(node)
